@@ -295,6 +295,8 @@ def run_property(prop, tier, seed):
         samples=(samples + b_samples)[:14] or [dict(note="no sample")],
         explanation=getattr(mod, "EXPLANATION", ""),
         known_findings=known_lines,
+        history_prelude=("off (G3DVC_NO_HISTORY)" if os.environ.get("G3DVC_NO_HISTORY") else "all obligations generated after this native use of the public API: " + _common.HISTORY),
+        callee_contract_groups=[g.name for g in groups if g.callee_for],
         exhaustive=bool(getattr(mod, "EXHAUSTIVE", False)),
     )
     run_level = level
